@@ -1,1 +1,448 @@
-(* Proofs/GenC17Proofs.v - placeholder *)
+(** Proofs/GenC17Proofs.v — the definitions GENERATED from the current source (Gen/GenC17.v, by
+    tools/py2coq_c17.py from pypyr/subproc.py, pypyr/steps/dsl/cmd.py, pypyr/aio/subproc.py,
+    pypyr/steps/dsl/cmdasync.py) are the hand-written model's functions (Model/Cmd.v).
+
+    [os args shell] is what the operating system does with an argv; the model's oracle is
+    [fun c => os (sync_args shell c) shell]: the command line as pypyr hands it to the OS.
+    A change of the exit-status check, of what is appended to [results] and when, of the
+    try/finally structure, of the isinstance order, of a keyword of the spawn call ... changes
+    the generated term and these equalities stop being provable. *)
+From Coq Require Import ZArith List Bool String Lia.
+From PV Require Import PyStr PyVal.
+From PV.Model Require Import Cmd.
+From PV.Gen Require Import GenC17.
+From PV.Proofs Require Import CmdProofs.
+Import ListNotations.
+Local Open Scope string_scope.
+Local Open Scope list_scope.
+
+Definition to_gout (e : option perr) : gout :=
+  match e with None => GOk | Some x => GExc x end.
+
+Lemma andthen_ok_id {S} (r : gout * S) : andthen r (fun s => (GOk, s)) = r.
+Proof. destruct r as [[|e] s]; reflexivity. Qed.
+
+Lemma rstrip_if_truthy o :
+  (if py_truth (VStr o) then val_rstrip (VStr o) else VStr o) = VStr (rstrip o).
+Proof. destruct o; reflexivity. Qed.
+
+Lemma gst_eta s : mkGst (g_trace s) (g_self s) (g_local s) (g_out s) = s.
+Proof. destruct s; reflexivity. Qed.
+
+(** * pypyr.subproc / pypyr.steps.dsl.cmd *)
+Section SyncTie.
+  Variable os : val -> bool -> outcome.
+  Variable shell : bool.
+
+  (** the model's oracle: the OS applied to what pypyr passes it *)
+  Definition orc_of : oracle := fun c => os (sync_args shell c) shell.
+
+  (** the Command object [CmdStep.__init__] builds for the model's [scmd] *)
+  Definition py_of (k : scmd) : pycmd := mkPycmd (sc_run k) shell (sc_save k) (sc_text k).
+
+  (** the generated methods, with CPython's and POSIX's side plugged in *)
+  Definition G__run := gen_Command__run (py_subprocess_run os) py_check_returncode shlex_split false.
+  Definition G_run := gen_Command_run (py_subprocess_run os) py_check_returncode shlex_split false.
+  Definition G_run_step := gen_CmdStep_run_step G_run.
+
+  Definition spawned (st : list string) : list (val * bool) :=
+    map (fun c => (sync_args shell c, shell)) st.
+
+  (** state after spawning [st] and appending [rs] to the running Command's results *)
+  Definition after (s : gst) (st : list string) (rs : list res1) : gst :=
+    mkGst (g_trace s ++ spawned st) (g_self s ++ rs) (g_local s) (g_out s).
+
+  Lemma after_nil s : after s [] [] = s.
+  Proof. unfold after, spawned. cbn. rewrite !app_nil_r. apply gst_eta. Qed.
+
+  Lemma after_after s st rs st' rs' : after (after s st rs) st' rs' = after s (st ++ st') (rs ++ rs').
+  Proof. unfold after, spawned. cbn. rewrite map_app, !app_assoc. reflexivity. Qed.
+
+  (** [Command._run] is the model's [run1] *)
+  Lemma gen__run_is_model k c s :
+    G__run (py_of k) c s =
+    (to_gout (snd (run1 orc_of shell k c)), after s [c] (fst (run1 orc_of shell k c))).
+  Proof.
+    unfold G__run, gen_Command__run, run1, orc_of, py_of, after, spawned, py_subprocess_run, sync_args.
+    cbn [pc_is_shell pc_is_save pc_is_text map]. rewrite orb_false_r.
+    set (a := if shell then VStr c else VList (map VStr (shlex_split c))).
+    destruct (sc_save k) eqn:SV; cbn [bindv andb].
+    - destruct (os a shell) as [rc o e|n m]; cbn [bindv fst snd to_gout]; [|rewrite app_nil_r; reflexivity].
+      unfold py_check_returncode, sync_result, sync_error, sync_args. cbn. fold a.
+      destruct (sc_text k); cbn.
+      + destruct o as [|? ?], e as [|? ?]; destruct (Z.eqb rc 0); reflexivity.
+      + destruct (Z.eqb rc 0); reflexivity.
+    - destruct (os a shell) as [rc o e|n m]; cbn [bindv fst snd to_gout]; [|rewrite app_nil_r; reflexivity].
+      unfold sync_error, sync_args. fold a.
+      destruct (Z.eqb rc 0); cbn; rewrite app_nil_r; reflexivity.
+  Qed.
+
+  Lemma gen_run_loop k cs : forall s,
+    for_each cs (fun c s' => andthen (G__run (py_of k) c s') (fun s'' => (GOk, s''))) s =
+    (let '(st, rs, er) := run_strs orc_of shell k cs in (to_gout er, after s st rs)).
+  Proof.
+    induction cs as [|c r IH]; intro s.
+    - cbn. rewrite after_nil. reflexivity.
+    - cbn [for_each run_strs]. rewrite andthen_ok_id, gen__run_is_model.
+      destruct (run1 orc_of shell k c) as [rs [e|]]; cbn [fst snd to_gout andthen].
+      + reflexivity.
+      + rewrite IH. destruct (run_strs orc_of shell k r) as [[st rs'] er].
+        rewrite after_after. reflexivity.
+  Qed.
+
+  (** [Command.run] is the model's [run_strs] over the run instruction(s) *)
+  Lemma gen_run_is_model k s :
+    G_run (py_of k) s =
+    (let '(st, rs, er) := run_strs orc_of shell k (run_list (sc_run k)) in (to_gout er, after s st rs)).
+  Proof.
+    unfold G_run, gen_Command_run. fold G__run. cbn [py_of pc_cmd].
+    destruct (sc_run k) as [c|l]; cbn [is_simple is_sequence as_str seq_items run_list].
+    - rewrite andthen_ok_id, gen__run_is_model. cbn [run_strs].
+      destruct (run1 orc_of shell k c) as [rs [e|]]; cbn [fst snd]; [reflexivity|].
+      rewrite app_nil_r. reflexivity.
+    - rewrite andthen_ok_id. apply gen_run_loop.
+  Qed.
+
+  (** the loop of [CmdStep.run_step], for ANY loop body that does to one fresh Command what the
+      model's [run_strs] does (spawns, appends the saved results to the local list, raises) *)
+  Definition body_spec (body : pycmd -> gst -> GR) : Prop :=
+    forall k s, exists self',
+      body (py_of k) s =
+      (let '(st, rs, er) := run_strs orc_of shell k (run_list (sc_run k)) in
+       (to_gout er, mkGst (g_trace s ++ spawned st) self' (g_local s ++ rs) (g_out s))).
+
+  Lemma gen_run_step_loop body : body_spec body -> forall ks s, exists self',
+    for_each (map py_of ks) body s =
+    (let '(st, rs, er) := run_cmds orc_of shell ks in
+     (to_gout er, mkGst (g_trace s ++ spawned st) self' (g_local s ++ rs) (g_out s))).
+  Proof.
+    intro B. induction ks as [|k r IH]; intro s.
+    - exists (g_self s). cbn. unfold spawned. cbn. rewrite !app_nil_r. rewrite gst_eta. reflexivity.
+    - cbn [map for_each run_cmds]. destruct (B k s) as [self1 E1]. rewrite E1.
+      destruct (run_strs orc_of shell k (run_list (sc_run k))) as [[st rs] er].
+      destruct er as [e|]; cbn [to_gout andthen].
+      + eexists. reflexivity.
+      + destruct (IH (mkGst (g_trace s ++ spawned st) self1 (g_local s ++ rs) (g_out s))) as [self' E].
+        rewrite E. destruct (run_cmds orc_of shell r) as [[st' rs'] er']. cbn.
+        exists self'. unfold spawned. rewrite map_app, !app_assoc. reflexivity.
+  Qed.
+
+  (** what of the final state is observable *)
+  Definition gobs (r : GR) : gout * list (val * bool) * cmdout :=
+    (fst r, g_trace (snd r), g_out (snd r)).
+
+  (** [CmdStep.run_step] is the model's [run_cmds] followed by [sync_cmdout] *)
+  Lemma gen_run_step_is_model ks s :
+    gobs (G_run_step (map py_of ks) s) =
+    (let '(st, rs, er) := run_cmds orc_of shell ks in
+     (to_gout er, g_trace s ++ spawned st,
+      match rs with [] => g_out s | _ => sync_cmdout rs end)).
+  Proof.
+    unfold G_run_step, gen_CmdStep_run_step.
+    match goal with |- context [for_each (map py_of ks) ?b ?s0] =>
+      assert (B : body_spec b);
+      [|destruct (gen_run_step_loop b B ks s0) as [self' E]; rewrite E]
+    end.
+    { intros k s1. cbv zeta. rewrite !andthen_ok_id, gen_run_is_model.
+      destruct (run_strs orc_of shell k (run_list (sc_run k))) as [[st rs] er].
+      unfold finally_, after, set_self, set_local. cbn.
+      destruct rs; cbn; rewrite ?app_nil_r; eexists; reflexivity. }
+    destruct (run_cmds orc_of shell ks) as [[st rs] er].
+    rewrite !andthen_ok_id. unfold gobs, finally_, set_local, set_out. cbn.
+    destruct rs as [|r1 [|r2 rs]]; reflexivity.
+  Qed.
+
+  (** end to end: the generated step on the Commands built from any step input, started in
+      an empty world, reports what [run_sync] reports *)
+  Lemma gen_sync_step_is_run_sync cf s :
+    g_trace s = [] -> g_out s = OutUnset ->
+    gobs (G_run_step (map py_of (sync_commands cf)) s) =
+    (let m := run_sync orc_of shell cf in
+     (match ob_err m with NoError => GOk | Raised e => GExc e | Multi _ => GOk end,
+      spawned (ob_started m), ob_out m)).
+  Proof.
+    intros T O. rewrite gen_run_step_is_model. unfold run_sync.
+    destruct (run_cmds orc_of shell (sync_commands cf)) as [[st rs] er].
+    cbn [ob_err ob_started ob_out]. rewrite T, O. cbn [app].
+    destruct er; destruct rs; reflexivity.
+  Qed.
+End SyncTie.
+
+(** * pypyr.subproc.SubprocessResult.check_returncode, pypyr.aio.subproc *)
+
+Definition opt_list {A} (o : option A) : list A := match o with Some x => [x] | None => [] end.
+
+(** [SubprocessResult.check_returncode] is the model's [res_error] on result objects *)
+Lemma gen_check_returncode_is_model cmd rc o e :
+  opt_list (gen_SubprocessResult_check_returncode (R1 cmd rc o e)) = res_error (R1 cmd rc o e).
+Proof.
+  unfold gen_SubprocessResult_check_returncode, res_error. cbn.
+  destruct (Z.eqb rc 0); reflexivity.
+Qed.
+
+(** the errors one element of [Command._results] contributes *)
+Definition entry_errors (x : rentry) : list perr :=
+  match x with EOne r => res_error r | ESer l => flat_map res_error l end.
+
+Definition G_parse_result := gen_aio_Command__parse_result gen_SubprocessResult_check_returncode.
+Definition G_parse_results := gen_aio_Command_parse_results gen_SubprocessResult_check_returncode.
+
+(** [_parse_result]: a single object never re-enters; a list re-enters once per element *)
+Lemma gen_parse_result_one rec r : G_parse_result rec (EOne r) = res_error r.
+Proof.
+  unfold G_parse_result, gen_aio_Command__parse_result.
+  destruct r as [cmd rc o e|n m]; cbn; [|reflexivity].
+  unfold gen_SubprocessResult_check_returncode. cbn. destruct (Z.eqb rc 0); reflexivity.
+Qed.
+
+Lemma gen_parse_result_list rec l :
+  G_parse_result rec (ESer l) = flat_map (fun n => rec (EOne n)) l.
+Proof. reflexivity. Qed.
+
+(** the model's [entry_errors] is the fixpoint of the generated recursion — and the only one:
+    two unfoldings of ANY function already give it *)
+Lemma gen_parse_result_is_model x : G_parse_result entry_errors x = entry_errors x.
+Proof. destruct x as [r|l]; [apply gen_parse_result_one|reflexivity]. Qed.
+
+Lemma gen_parse_result_unique rec x : G_parse_result (G_parse_result rec) x = entry_errors x.
+Proof.
+  destruct x as [r|l]; [apply gen_parse_result_one|].
+  rewrite gen_parse_result_list. cbn [entry_errors].
+  induction l as [|n t IH]; [reflexivity|]. cbn [flat_map]. rewrite gen_parse_result_one, IH. reflexivity.
+Qed.
+
+Lemma flat_map_singleton {A} (l : list A) : flat_map (fun x => [x]) l = l.
+Proof. induction l as [|a r IH]; [reflexivity|]. cbn. rewrite IH. reflexivity. Qed.
+
+(** [parse_results] flattens the errors of every element, in order *)
+Lemma gen_parse_results_is_model results :
+  G_parse_results entry_errors results = flat_map entry_errors results.
+Proof.
+  unfold G_parse_results, gen_aio_Command_parse_results. fold G_parse_result.
+  apply flat_map_ext. intro x. rewrite flat_map_singleton. apply gen_parse_result_is_model.
+Qed.
+
+Lemma ast_eta s : mkAst (a_trace s) (a_local s) (a_ran s) (a_results s) (a_errors s) (a_out s) = s.
+Proof. destruct s; reflexivity. Qed.
+
+Section AsyncTie.
+  Variable os : val -> bool -> outcome.
+  Variable shell : bool.
+  Let orc : oracle := orc_of os shell.
+
+  (** the Command object as [_spawn] / [_run] read it *)
+  Definition apy_of (k : acmd) : pycmd := mkPycmd (RunStr "") shell (ac_save k) (ac_text k).
+
+  Definition G_spawn := gen_aio_Command__spawn (py_create_subprocess os) py_communicate shlex_split.
+  Definition G_arun := gen_aio_Command__run (py_create_subprocess os) py_communicate shlex_split.
+
+  (** state after spawning [st] and appending [rs] to the serial loop's local list *)
+  Definition aafter (s : ast_) (st : list string) (rs : list res1) : ast_ :=
+    mkAst (a_trace s ++ spawned shell st) (a_local s ++ rs) (a_ran s) (a_results s) (a_errors s) (a_out s).
+
+  Lemma aafter_aafter s st rs st' rs' :
+    aafter (aafter s st rs) st' rs' = aafter s (st ++ st') (rs ++ rs').
+  Proof. unfold aafter, spawned. cbn. rewrite map_app, !app_assoc. reflexivity. Qed.
+
+  (** [_spawn] with the handles [__init__] sets up (PIPE exactly when saving): the spawn is
+      recorded; a spawn failure is raised; otherwise the model's [async_result] *)
+  Lemma gen_spawn_is_model k c s :
+    G_spawn (apy_of k) c (ac_save k) (ac_save k) s =
+    (match orc c with
+     | SpawnFail n m => GRaise (PExn n m)
+     | Exited rc o e => GVal (async_result shell (ac_save k) (ac_text k) c rc o e)
+     end, aafter s [c] []).
+  Proof.
+    unfold G_spawn, gen_aio_Command__spawn, apy_of, orc, orc_of, sync_args, py_create_subprocess,
+      py_communicate, async_result, async_args, async_stream, aafter, spawned, aset_trace.
+    cbn [pc_is_shell pc_is_save pc_is_text map]. rewrite app_nil_r.
+    destruct shell; cbn [bindvv].
+    - destruct (os (VStr c) true) as [rc o e|n m]; cbn [bindvv]; [|reflexivity].
+      destruct (ac_save k), (ac_text k), o as [|? ?], e as [|? ?]; reflexivity.
+    - destruct (os (VList (map VStr (shlex_split c))) false) as [rc o e|n m]; cbn [bindvv]; [|reflexivity].
+      destruct (ac_save k), (ac_text k), o as [|? ?], e as [|? ?]; reflexivity.
+  Qed.
+
+  (** the serial sub-list loop with its [except Exception], for ANY loop body that does to one
+      command what [_spawn] + append + "stop on non-zero" does *)
+  Definition aspec_body (k : acmd) (body : string -> ast_ -> gval bool * ast_) : Prop :=
+    forall c s,
+      body c s =
+      match orc c with
+      | SpawnFail n m => (GRaise (PExn n m), aafter s [c] [])
+      | Exited rc o e =>
+          (GVal (negb (Z.eqb rc 0)),
+           aafter s [c] [async_result shell (ac_save k) (ac_text k) c rc o e])
+      end.
+
+  Lemma gen_serial_loop k body handler :
+    aspec_body k body ->
+    (forall e s, handler e s = (GOk, aset_local s (a_local s ++ [res_of_exn e]))) ->
+    forall l s,
+    catch_ (andthen (for_each_until l body s) (fun s' => (GOk, s'))) handler =
+    (GOk, aafter s (upto_bad orc l) (map snd (ser_spec orc shell (ac_save k) (ac_text k) l))).
+  Proof.
+    intros B H. induction l as [|c r IH]; intro s.
+    - cbn. unfold aafter, spawned. cbn. rewrite !app_nil_r, ast_eta. reflexivity.
+    - cbn [for_each_until ser_spec upto_bad]. rewrite B. unfold exit_zero.
+      destruct (orc c) as [rc o e|n m] eqn:O.
+      + destruct (Z.eqb rc 0) eqn:Z; cbn [negb].
+        * rewrite IH, aafter_aafter. reflexivity.
+        * reflexivity.
+      + cbn [andthen catch_]. rewrite H. unfold aafter, aset_local. cbn.
+        rewrite <- app_assoc. reflexivity.
+  Qed.
+
+  (** [Command._run] (async): a single command line is spawned and its result (or the spawn
+      error) returned; a list runs serially up to the first non-zero exit / spawn error and
+      returns the model's [ser_spec] results *)
+  Lemma gen_arun_one_is_model k c s :
+    G_arun (apy_of k) (AOne c) (ac_save k) (ac_save k) s =
+    (match orc c with
+     | SpawnFail n m => GRaise (PExn n m)
+     | Exited rc o e => GVal (EOne (async_result shell (ac_save k) (ac_text k) c rc o e))
+     end, aafter s [c] []).
+  Proof.
+    unfold G_arun, gen_aio_Command__run. fold G_spawn. cbn [aent_is_list aent_as_str].
+    rewrite gen_spawn_is_model. destruct (orc c); reflexivity.
+  Qed.
+
+  Lemma gen_arun_list_is_model k l s :
+    G_arun (apy_of k) (ASer l) (ac_save k) (ac_save k) s =
+    (GVal (ESer (map snd (ser_spec orc shell (ac_save k) (ac_text k) l))),
+     aafter (aset_local s []) (upto_bad orc l)
+            (map snd (ser_spec orc shell (ac_save k) (ac_text k) l))).
+  Proof.
+    unfold G_arun, gen_aio_Command__run. fold G_spawn. cbn [aent_is_list aent_items]. cbv zeta.
+    match goal with |- context [for_each_until l ?b ?s0] =>
+      match goal with |- context [catch_ _ ?h] =>
+        rewrite (gen_serial_loop k b h)
+      end
+    end.
+    - reflexivity.
+    - intros c s1. rewrite gen_spawn_is_model. destruct (orc c) as [rc o e|n m]; [|reflexivity].
+      cbn [bindvv res_returncode async_result]. unfold aafter, aset_local. cbn.
+      rewrite app_nil_r. reflexivity.
+    - intros e s1. reflexivity.
+  Qed.
+
+  (** in the model's own terms: what the task of entry [e] leaves in its slot *)
+  Lemma gen_arun_list_is_slot k l s :
+    fst (G_arun (apy_of k) (ASer l) (ac_save k) (ac_save k) s) =
+    GVal (slot_entry (fslot orc shell k (ASer l))).
+  Proof.
+    rewrite gen_arun_list_is_model. cbn [fst]. rewrite fslot_entry. cbn [entry_out].
+    rewrite ser_spec_closed, map_map. reflexivity.
+  Qed.
+
+  (** ** Commands.run: aggregation after the event loop has finished *)
+  Definition G_commands_run :=
+    gen_aio_Commands_run (fun s => (GOk, aset_ran s true)) (G_parse_results entry_errors).
+
+  Definition saved_of (cs : list acmdo) : list rentry :=
+    flat_map (fun c => if ao_is_save c then ao_results c else []) cs.
+  Definition errors_of (cs : list acmdo) : list perr :=
+    flat_map (fun c => flat_map entry_errors (ao_results c)) cs.
+
+  Definition acc_body_spec (body : acmdo -> ast_ -> gout * ast_) : Prop :=
+    forall c s, a_ran s = true ->
+      body c s =
+      (GOk, mkAst (a_trace s) (a_local s) true
+                  (a_results s ++ (if ao_is_save c then ao_results c else []))
+                  (a_errors s ++ flat_map entry_errors (ao_results c)) (a_out s)).
+
+  Lemma gen_commands_loop body : acc_body_spec body -> forall cs s, a_ran s = true ->
+    for_each cs body s =
+    (GOk, mkAst (a_trace s) (a_local s) true (a_results s ++ saved_of cs)
+                (a_errors s ++ errors_of cs) (a_out s)).
+  Proof.
+    intro B. induction cs as [|c r IH]; intros s R.
+    - cbn. rewrite !app_nil_r, <- R, ast_eta. reflexivity.
+    - cbn [for_each]. rewrite B by exact R. cbn [andthen]. rewrite IH by reflexivity. cbn.
+      unfold saved_of, errors_of. cbn [flat_map]. rewrite !app_assoc. reflexivity.
+  Qed.
+
+  (** [Commands.run]: cmdOut material = the [_results] of the saving Commands, in order; one
+      MultiError holding every error of every Command, in order, iff there is any *)
+  Lemma gen_commands_run_is_model cs s :
+    G_commands_run cs s =
+    (match errors_of cs with [] => GOk | _ => GExc (PExn "pypyr.errors.MultiError" "") end,
+     mkAst (a_trace s) (a_local s) true (a_results s ++ saved_of cs) (errors_of cs) (a_out s)).
+  Proof.
+    unfold G_commands_run, gen_aio_Commands_run. cbn [andthen]. cbv zeta.
+    match goal with |- context [for_each cs ?b ?s0] =>
+      rewrite (gen_commands_loop b)
+    end.
+    - cbn [andthen a_errors app]. destruct (errors_of cs); reflexivity.
+    - intros c s1 R. rewrite !gen_parse_results_is_model.
+      unfold ao_results_now, aset_results, aset_errors. cbn [a_ran]. rewrite R.
+      destruct (ao_is_save c), (flat_map entry_errors (ao_results c)) eqn:F;
+        cbn [negb is_nil a_trace a_local a_ran a_results a_errors a_out];
+        rewrite ?app_nil_r, ?R; try reflexivity.
+      all: rewrite <- R at 1; rewrite ?ast_eta; reflexivity.
+    - reflexivity.
+  Qed.
+
+  (** the Commands as the event loop leaves them, by the model: each Command's [_results] are
+      its tasks' slots in declaration order (this is the gather assumption) *)
+  Definition acmdo_of (k : acmd) : acmdo :=
+    mkAcmdo (ac_save k) (map (entry_out orc shell k) (entries k)).
+
+  Lemma entry_errors_entry_out k e :
+    entry_errors (entry_out orc shell k e) =
+    flat_map (afailure orc shell k) (upto_bad orc (entry_cmds e)).
+  Proof.
+    rewrite <- fslot_errors, <- fslot_entry.
+    unfold slot_entry, slot_errors, fslot. destruct e as [c|l]; cbn [is_ser sl_ser sl_done entry_cmds].
+    - rewrite upto_bad_single. cbn. rewrite app_nil_r. reflexivity.
+    - cbn [entry_errors]. induction (upto_bad orc l) as [|c r IH]; [reflexivity|].
+      cbn. rewrite IH. reflexivity.
+  Qed.
+
+  Lemma saved_of_model ks :
+    saved_of (map acmdo_of ks) =
+    flat_map (fun p => if ac_save (fst p) then [entry_out orc shell (fst p) (snd p)] else [])
+             (aentries ks).
+  Proof.
+    unfold saved_of, aentries. induction ks as [|k r IH]; [reflexivity|].
+    cbn [map flat_map]. rewrite flat_map_app, IH. f_equal.
+    cbn [acmdo_of ao_is_save ao_results]. destruct (ac_save k) eqn:SV.
+    - induction (entries k) as [|e t IHt]; [reflexivity|].
+      cbn [map flat_map fst snd]. rewrite SV. cbn [app]. rewrite IHt. reflexivity.
+    - induction (entries k) as [|e t IHt]; [reflexivity|].
+      cbn [map flat_map fst snd]. rewrite SV. cbn [app]. exact IHt.
+  Qed.
+
+  Lemma errors_of_model ks : errors_of (map acmdo_of ks) = all_failures orc shell ks.
+  Proof.
+    unfold errors_of, all_failures, aentries. induction ks as [|k r IH]; [reflexivity|].
+    cbn [map flat_map]. rewrite flat_map_app, IH. f_equal.
+    cbn [acmdo_of ao_results]. induction (entries k) as [|e t IHt]; [reflexivity|].
+    cbn. rewrite IHt, entry_errors_entry_out. reflexivity.
+  Qed.
+
+  (** ** AsyncCmdStep.run_step *)
+  Definition G_async_step (ks : list acmd) :=
+    gen_AsyncCmdStep_run_step (G_commands_run (map acmdo_of ks)) (any_save ks).
+
+  (** end to end, for EVERY schedule: started from a fresh Commands object, the generated
+      aggregation and step report the model's error and cmdOut *)
+  Lemma gen_async_step_is_run_async sched cf s :
+    a_results s = [] -> a_out s = OutUnset ->
+    let m := run_async orc shell sched cf in
+    let r := G_async_step (async_commands cf) s in
+    a_out (snd r) = ob_out m /\
+    match ob_err m with
+    | NoError => fst r = GOk
+    | Multi l => fst r = GExc (PExn "pypyr.errors.MultiError" "") /\ a_errors (snd r) = l
+    | Raised _ => False
+    end.
+  Proof.
+    intros R O. cbv zeta. unfold run_async. rewrite async_out, async_err.
+    unfold G_async_step, gen_AsyncCmdStep_run_step. rewrite !andthen_ok_id.
+    rewrite gen_commands_run_is_model, R, saved_of_model, errors_of_model. cbn [app].
+    unfold finally_, aset_out. cbn.
+    destruct (any_save (async_commands cf)); cbn;
+      destruct (all_failures orc shell (async_commands cf)); cbn; rewrite ?O; auto.
+  Qed.
+End AsyncTie.
